@@ -709,6 +709,8 @@ pub fn size_strategy() -> impl Strategy<Value = u16> {
         1 => 300u16..5000,
         1 => 5000u16..=65000,
         1 => 65480u16..=65535,
+        // encoding boundaries: leb128 / descriptor lengths (127|128, 16 383|16 384), one- and two-byte counts, powers of two
+        1 => proptest::sample::select(vec![125u16, 126, 127, 128, 129, 130, 254, 255, 256, 257, 4095, 4096, 4097, 16_381, 16_382, 16_383, 16_384, 16_385, 32_767, 32_768, 32_769]),
     ]
 }
 
